@@ -1,5 +1,65 @@
 import PegVerif.Props.C11Err
 import PegVerif.Props.C01
-/- C11 — derivation-level statements (on top of the message theorems of C11Err). -/
+import PegVerif.Proofs.EventLemmas
+/-
+  C11 — derivation-level statements: when does `Parse` return an error, which token does it
+  carry, and why producing the message cannot panic.  (The message itself — line/column of begin
+  and end, the quoted text — is `error_spec` / `translate_spec` in C11Err.)
+-/
 namespace PegVerif
+
+variable {P : Program} {cfg : Cfg} {env : CEnv} {G : Grammar} {inp : List Sym}
+
+/-- **C11** (nil iff matched, and which token): every run of a failing parse returns false with
+    `maxToken` = the fold of `add`'s update over every attempted token, in attempt order. -/
+theorem C11_maxTok (hW : World P cfg env G inp) {n cr evs o s'}
+    (hfind : P.find n = some cr) (hev : Eval G cfg.rho inp (.name n) 0 .fail evs)
+    (hrun : Exec P cfg inp cr 0 St.init Frame.empty (o, s')) :
+    o = .ret false ∧ s'.maxTok = evs.foldl updTok zeroTok := by
+  have h := R_rule_all hW hfind hev rfl (Nat.zero_le _) (by simp [St.init]) (by simp [St.init]) hrun
+  exact ⟨h.1, by simpa [St.init] using h.2.2.2.2.2.1⟩
+
+/-- What that fold is: the zero token if no non-empty token was attempted, otherwise an attempted
+    non-empty token beyond whose end no attempted non-empty token reaches. -/
+theorem C11_maxTok_furthest (evs : List Token) :
+    let r := evs.foldl updTok zeroTok
+    (r = zeroTok ∨ (r ∈ evs ∧ r.b ≠ r.e)) ∧ (∀ t ∈ evs, t.b ≠ t.e → t.e ≤ r.e) := by
+  have := foldl_updTok_spec evs zeroTok
+  exact ⟨this.1, this.2.2⟩
+
+/-- … and it is the FIRST such token in attempt order. -/
+theorem C11_maxTok_first (pre post : List Token) (t : Token)
+    (h : (pre ++ t :: post).foldl updTok zeroTok = t) (hne : t.b ≠ t.e) (hnew : t ∉ pre) (hp : t ∉ post) :
+    ∀ x ∈ pre, x.b ≠ x.e → x.e < t.e := by
+  have hmt : t ≠ zeroTok := by intro e; rw [e] at hne; simp [zeroTok] at hne
+  rcases foldl_updTok_first pre post t zeroTok h hne hnew hmt with h1 | h1
+  · exact h1.1
+  · exact absurd h1 hp
+
+/-- The error token lies within the input, so `Error()` cannot panic and quotes exactly
+    `inp[b:e]` (`error_no_panic`, `error_spec`, `error_quote_input` apply). -/
+theorem C11_token_in_input {n evs} (hev : Eval G cfg.rho inp (.name n) 0 .fail evs) :
+    let r := evs.foldl updTok zeroTok
+    r.b ≤ r.e ∧ r.e < (bufOf inp).length := by
+  have hb := Eval_events_bound hev (Nat.zero_le _)
+  rcases (foldl_updTok_spec evs zeroTok).1 with h | h
+  · simp only [h]; simp [zeroTok, bufOf]
+  · have := hb _ h.1
+    simp only [bufOf, List.length_append, List.length_singleton]
+    omega
+
+/-- Consequently the message is produced without panic, with the lines/columns of `lineCol`. -/
+theorem C11_error_message {n evs} (hev : Eval G cfg.rho inp (.name n) 0 .fail evs)
+    (pretty : Bool) (quote : List Sym → String) :
+    (errorString (evs.foldl updTok zeroTok).rule (bufOf inp) (evs.foldl updTok zeroTok).b
+      (evs.foldl updTok zeroTok).e pretty quote).isSome :=
+  have h := C11_token_in_input (G := G) (cfg := cfg) hev
+  error_no_panic _ _ _ _ pretty quote h.1 h.2
+
 end PegVerif
+
+#print axioms PegVerif.C11_maxTok
+#print axioms PegVerif.C11_maxTok_furthest
+#print axioms PegVerif.C11_maxTok_first
+#print axioms PegVerif.C11_token_in_input
+#print axioms PegVerif.C11_error_message
